@@ -35,7 +35,7 @@ func report(o opts, e *Engine, prop, tier string, seed int, sel []*Obligation, f
 	violations := 0
 	solverTime := 0.0
 	bySolver := map[string]int{}
-	replayDir := filepath.Join(o.verif, "replays", prop)
+	replayDir := filepath.Join(o.out, "replays", prop)
 	os.MkdirAll(replayDir, 0o755)
 	var lines []string
 	for _, ob := range sel {
@@ -168,9 +168,9 @@ func report(o opts, e *Engine, prop, tier string, seed int, sel []*Obligation, f
 		"property_id": prop, "tier": tier, "seed": seed, "level": "proof",
 		"coverage": cov, "assumptions": assumptions, "wall_s": round3(wall), "violations": violations,
 	}
-	os.MkdirAll(filepath.Join(o.verif, "evidence"), 0o755)
+	os.MkdirAll(filepath.Join(o.out, "evidence"), 0o755)
 	data, _ := json.MarshalIndent(evd, "", " ")
-	os.WriteFile(filepath.Join(o.verif, "evidence", prop+".json"), data, 0o644)
+	os.WriteFile(filepath.Join(o.out, "evidence", prop+".json"), data, 0o644)
 	for _, l := range lines {
 		fmt.Println(l)
 	}
